@@ -142,7 +142,28 @@ def run_up4(binary, cases, workers=10, tag="up4"):
     for j in range(k):
         for i, o in enumerate(res[j]):
             out[j + i * k] = o
+    # a world that did not come up (start-up Read timed out on a loaded machine) says nothing about the property: once more, alone
+    for _ in range(2):
+        redo = [i for i, o in enumerate(out) if isinstance(o, dict) and "world_err" in o]
+        if not redo:
+            break
+        again = run_harness(binary, "c14", [cases[i] for i in redo], tag=f"{tag}_redo", timeout=1200)
+        for i, o in zip(redo, again):
+            out[i] = o
     return out
+
+
+def confirmed(binary, case, sig, mon, tries=2):
+    """a failure seen in a parallel run is reported only if it shows again when the history runs alone (a loaded machine can delay a
+    PacketOut beyond the harness' wait; a real defect reproduces).  mon(case, out) -> [(signature, message, event)]"""
+    for _ in range(tries):
+        try:
+            o = run_harness(binary, "c14", [case["input"]], tag="up4_confirm", timeout=600)[0]
+        except HarnessError:
+            return True
+        if not any(s2 == sig for s2, _, _ in mon(case, o)):
+            return False
+    return True
 
 
 def write_failed(w):
